@@ -35,6 +35,10 @@ CLAIMED.update({
  "C16": e1("C16","6 (C16), 5 (E1)","For every generated machine the discovered sysfs.System (CPU ids, package/die/node/core, thread siblings, online/isolated, node CPU lists, memory sizes, distances, cache sharing) must equal the model that was rendered, and the topology-aware pool snapshot must be a single tree with disjoint siblings, parents containing children, root == available CPUs, isolated/reserved/sharable a partition, all memory at the root, child memory within parent memory, CPU-less PMEM/HBM attached exactly to pools holding a closest CPU-bearing DRAM node. Configuration sampling evaluated at every start and accepted reconfiguration of the simulated histories.","discovery-vs-model and pool-tree well-formedness oracle at every start/reconfigure"),
  "C12": e1("C12","6 (C12), 5 (E1)","Every adjustment, returned update and pushed update of every request is inspected: a container opted out of CPU pinning (cpu.preserve at container/pod/bare level, balloons preserve rule, pinCPU off) is never told a cpuset it does not already hold; a container opted out of memory pinning (memory.preserve, pinMemory off globally or for its balloon type) is never told memory nodes other than those it already had.","opt-out oracle over every adjustment/update"),
 })
+CLAIMED["C18"] = dict(engine="annsim", level="exploration", ref="6 (C18), 5 (E5)",
+   technique="deterministic simulation over the one nondeterminism source the property quantifies: seeded map-iteration orders of the plugins' annotation loops (verifgen range rewriting), handlers run in-package via source transplant, differential against a reference resolver",
+   text="GetEffectiveAnnotation through a real cache, sgx-epc parseEpcLimit and the memory-qos / memtierd CreateContainer handlers are run on generated annotation maps (all three forms, container names that are prefixes/suffixes of each other or contain separators). Results must equal an independent resolver (container-specific > pod-wide > bare), be identical under 8 map-iteration orders per map, be unchanged when annotations addressed to other containers are removed, and an explicitly annotated cgroup parameter must win over the class-derived value.",
+   note="The plugins are package main: their sources are compiled into harness packages by verifgen (package clause and main() renamed, nothing else), so what runs is the repository's current code. 8 orders per map are sampled.")
 
 NOT_BUILT = {
 }
